@@ -549,7 +549,37 @@ func c13Root(g *cueGen, depth int) (*CTy, []string) {
 	return root, steps
 }
 
+// c13KeysBelowTheRootNamedLikeSteps: with a current step, keys BELOW the root that are spelled like root fields (blocked ones included)
+// are ordinary declared keys
+func c13KeysBelowTheRootNamedLikeSteps(c *Ctx) {
+	steps := []string{"s1", "s2", "s3"}
+	edges := map[string][]string{"s2": {"s1"}}
+	root, _ := c15Schema(steps, edges, []string{"lonely"})
+	for _, f := range root.F {
+		var fs []*CField
+		for _, nm := range []string{"s1", "s2", "s3", "lonely", "input"} {
+			fs = append(fs, &CField{N: nm, M: "reg", Ty: &CTy{T: "int"}})
+		}
+		fs = append(fs, &CField{N: "deep", M: "reg", Ty: &CTy{T: "struct", F: []*CField{{N: "s3", M: "reg", Ty: &CTy{T: "struct", F: []*CField{{N: "x", M: "reg", Ty: &CTy{T: "string"}}}}}}}})
+		f.Ty.F = append(f.Ty.F, &CField{N: "result", M: "reg", Ty: &CTy{T: "struct", F: fs}})
+	}
+	txt := cueSchemaText(&cueGen{}, root)
+	for _, cp := range []string{"", "s1", "s2", "s3"} {
+		for _, head := range []string{"input", "s1"} {
+			if cp != "" && cp != "s2" && head == "s1" { // s1 is readable without a step and for s2 (which depends on it)
+				continue
+			}
+			for _, nm := range []string{"s1", "s2", "s3", "lonely", "input"} {
+				c.cueDo(cueCase{S: root, P: []string{head, "result", nm}, CP: cp, Dom: true, Q: "$." + head + ".result." + nm, Txt: txt}, "keys-below-the-root-named-like-steps", "ACC Number Single", false)
+			}
+			c.cueDo(cueCase{S: root, P: []string{head, "result", "deep", "s3", "x"}, CP: cp, Dom: true, Q: "$." + head + ".result.deep.s3.x", Txt: txt}, "keys-below-the-root-named-like-steps", "ACC String Single", false)
+			c.cueDo(cueCase{S: root, P: []string{head, "result", "deep", "s3"}, CP: cp, Dom: true, Q: "$." + head + ".result.deep.s3", Txt: txt}, "keys-below-the-root-named-like-steps", "ACC Object Single", false)
+		}
+	}
+}
+
 func genC13(c *Ctx) {
+	c13KeysBelowTheRootNamedLikeSteps(c)
 	c.Rule = "random CUE schemas from a type-tree generator (closed and open structs to depth 4; fields string/bytes/bool/int/float/number/_; lists of those and of structs; regular, optional ?, required !, quoted, hidden _x and definition-typed fields), each rendered as CUE text; per schema every declared key path (sampled when there are many) plus one-key mutations (a key replaced by an undeclared one, an undeclared or misplaced key appended), validated by the real CueValidate with and without a current step; oracle: accept with the declared (type, Single|Array) iff every key names a declared field, reject otherwise (any message), open structs and _ accept any further key as Any; a key after a list of lists is rejected; keys applied to the ELEMENTS of a list of structs or of `_` (after First / Last / Index(0), and as the key of a filter condition; open lists `[...T]` and closed lists `[T]`): a declared element field is accepted with its own kind, an undeclared one rejected, open element structs and `_` elements accept any key as Any; unspecified by the property and excluded from the oracle: hidden fields marked ?/!, keys differing only in case, the kind reported for a list of lists. distinct = distinct (class, path length, node kinds along the path, verdict); non-trivial = verdict is not the most common one"
 	n := c.scale(700, 7000)
 	for i := 0; i < n; i++ {
@@ -1033,7 +1063,24 @@ func genC15(c *Ctx) {
 					}
 				}
 			}
+			// ... and every step gets a plain struct `result` whose fields are named like the root fields: keys below the root, whatever their
+			// names, are not root fields
+			for _, f := range root.F {
+				var fs []*CField
+				for _, nm := range []string{"s1", "s2", "s3", "lonely", "input"} {
+					fs = append(fs, &CField{N: nm, M: "reg", Ty: &CTy{T: "int"}})
+				}
+				fs = append(fs, &CField{N: "deep", M: "reg", Ty: &CTy{T: "struct", F: []*CField{{N: "s2", M: "reg", Ty: &CTy{T: "struct", F: []*CField{{N: "x", M: "reg", Ty: &CTy{T: "string"}}}}}}}})
+				f.Ty.F = append(f.Ty.F, &CField{N: "result", M: "reg", Ty: &CTy{T: "struct", F: fs}})
+			}
 			txt := cueSchemaText(&cueGen{}, root)
+			for _, cp := range steps {
+				for _, nm := range []string{"s1", "s2", "s3", "lonely", "input"} {
+					c.cueDo(cueCase{S: root, P: []string{"input", "result", nm}, CP: cp, Dom: true, Q: "$.input.result." + nm, Txt: txt}, "keys-below-the-root-named-like-steps", "ACC Number Single", false)
+				}
+				c.cueDo(cueCase{S: root, P: []string{"input", "result", "deep", "s2", "x"}, CP: cp, Dom: true, Q: "$.input.result.deep.s2.x", Txt: txt}, "keys-below-the-root-named-like-steps", "ACC String Single", false)
+				c.cueDo(cueCase{S: root, P: []string{"input", "result", "deep", "s2"}, CP: cp, Dom: true, Q: "$.input.result.deep.s2", Txt: txt}, "keys-below-the-root-named-like-steps", "ACC Object Single", false)
+			}
 			for _, cp := range steps {
 				for _, nm := range []string{"s1", "s2", "s3", "lonely", "input", "nosuch"} {
 					for fi, q := range []string{"$.input.items[@." + nm + ".Equal(\"x\")]", "$.input.items.First()." + nm, "$.input.items[@.v.Equal(\"x\")].Last()." + nm, "{$.input.items[@." + nm + ".IsNull()].Any()}"} {
